@@ -16,6 +16,11 @@ def accepts (rd : ReadOut) (co : CertOut) (cert : CertId) : Bool :=
   | .ok _ _ _ ps, some (pub, _), some v => pub == ps && v == cert
   | _, _, _ => false
 
+/-- `PeerStatic()` after a successful noise read: the static key the peer used in this exchange. -/
+def readStatic : ReadOut → Option Bytes
+  | .ok _ _ _ ps => some ps
+  | .err _ => none
+
 /-- C05: the step carried a payload with a usable remote index (the completed result reports it). -/
 def carriesIndex (initiator : Bool) (rd : ReadOut) : Bool :=
   match rd with
